@@ -16,7 +16,8 @@
    * `listed_signals` — every name of the sensitivity list denotes a signal (superfluous part only). *)
 From Coq Require Import List NArith Bool.
 Import ListNotations.
-From RH Require Import Lint.Sens Lint.SensProofs.
+From Coq Require Import Permutation.
+From RH Require Import Lint.Sens Lint.SensProofs Lint.SensCache Lint.SensCacheProofs.
 Open Scope N_scope.
 
 (* The whole diagnostic list: at most one `missing` diagnostic at the process keyword that lists
@@ -149,6 +150,33 @@ Theorem C20_out_actual_refuted :
     lint_model root p = Some [DMissing (tk 0) [(5, tk 9)]].
 Proof. exact out_actual_refuted. Qed.
 
+(* ---- the linter's per-unit cache (`SensitivityListLinter::lint`, Lint/SensCache.v) ----
+   D = the diagnostics `analyze_unit` yields for one unit (in C20: the `lint_model` diagnostics of the processes
+   of that unit).  `wf_hist` is what `DesignRoot::analyze` guarantees about `analyzed_units`: a unit that exists
+   and is not reported as analysed existed at the previous call with the same result. *)
+(* after any history of lint calls the emitted diagnostics are exactly those of the units that exist now
+   (in the libraries that are configured and not third party), whatever was cached before *)
+Theorem C20_cache_history_exact :
+  forall (D : Type) (steps : list (step D)) (st : step D),
+    wf_hist D None (steps ++ [st]) ->
+    Permutation (snd (run D (steps ++ [st]))) (spec_emitted D st).
+Proof. exact cache_history_exact. Qed.
+(* ... and so after every call of the history *)
+Theorem C20_cache_every_step_exact :
+  forall (D : Type) (pre : list (step D)) (st : step D) (post : list (step D)),
+    wf_hist D None (pre ++ st :: post) ->
+    Permutation (snd (run D (pre ++ [st]))) (spec_emitted D st).
+Proof. exact cache_every_step_exact. Qed.
+(* seeded variant "keep an entry while the PRIMARY unit of its key exists": entity + architecture, then the
+   architecture disappears while the entity stays: the architecture's diagnostics are still emitted *)
+Theorem C20_cache_prune_by_primary_refuted :
+  exists (steps : list (step N)) (st : step N),
+    wf_hist N None (steps ++ [st]) /\
+    Permutation (snd (run N (steps ++ [st]))) (spec_emitted N st) /\
+    ~ Permutation (snd (run_by_primary N (steps ++ [st]))) (spec_emitted N st) /\
+    snd (run_by_primary N (steps ++ [st])) = [(w_arch, 7); (w_ent, 0)].
+Proof. exact cache_prune_by_primary_refuted. Qed.
+
 Check C20_lint_exact :
   forall root p names,
     p_sens p = Some (SensNames names) ->
@@ -175,3 +203,6 @@ Print Assumptions C20_f15_now.
 Print Assumptions C20_order_old_refuted.
 Print Assumptions C20_call_span_old_refuted.
 Print Assumptions C20_out_actual_refuted.
+Print Assumptions C20_cache_history_exact.
+Print Assumptions C20_cache_every_step_exact.
+Print Assumptions C20_cache_prune_by_primary_refuted.
